@@ -2748,13 +2748,13 @@ class SSHConnection(SSHPacketHandler, asyncio.Protocol):
         send_window = packet.get_uint32()
         send_pktsize = packet.get_uint32()
 
-        if send_pktsize == 0:
-            raise ProtocolError('Invalid maximum packet size')
-
         # Work around an off-by-one error in dropbear introduced in
         # https://github.com/mkj/dropbear/commit/49263b5
         if b'dropbear' in self._client_version and self._compressor:
             send_pktsize -= 1
+
+        if send_pktsize <= 0:
+            raise ProtocolError('Invalid maximum packet size')
 
         try:
             chantype = chantype_bytes.decode('ascii')
@@ -2788,13 +2788,13 @@ class SSHConnection(SSHPacketHandler, asyncio.Protocol):
         send_window = packet.get_uint32()
         send_pktsize = packet.get_uint32()
 
-        if send_pktsize == 0:
-            raise ProtocolError('Invalid maximum packet size')
-
         # Work around an off-by-one error in dropbear introduced in
         # https://github.com/mkj/dropbear/commit/49263b5
         if b'dropbear' in self._server_version and self._compressor:
             send_pktsize -= 1
+
+        if send_pktsize <= 0:
+            raise ProtocolError('Invalid maximum packet size')
 
         chan = self._channels.get(recv_chan)
         if chan:
